@@ -1070,6 +1070,369 @@ func srDirectedV1(rng *rand.Rand) *srInput {
 	return in
 }
 
+// srDirectedV1Chain builds a room-version-1 history whose state sets disagree on ONE auth key
+// with n candidates (n state sets, one candidate each), for each auth type:
+//   "pl":     power_levels chain - every candidate is sent by a user who has the power only under
+//             the previous candidate (A raises B, B raises C, ...)
+//   "member": one user's membership in an invite-only room: leave, invite, join, leave, invite -
+//             every step allowed only after the previous one
+//   "jr":     join_rules by senders of different power
+//   "3pid":   third_party_invite state events of one token by senders of different power
+// (DESIGN 6.2 r7: each newer candidate is judged against the CURRENT candidate; the walk stops at
+// the first that fails.) broken: one middle candidate is sent by a user without the power.
+func srDirectedV1Chain(rng *rand.Rand, kind string, n int, broken bool) *srInput {
+	h := &srHist{ver: "1", v1fmt: true, byID: map[string]gmsl.PDU{}, idx: map[string]int{}, roomID: "!r:" + srOrigin}
+	for i := 0; i < 6; i++ {
+		h.users = append(h.users, fmt.Sprintf("@u%d:%s", i, srOrigin))
+	}
+	u := h.users
+	ts := int64(1000 + rng.Intn(500))
+	depth := int64(0)
+	var last string
+	emit := func(typ string, sk *string, sender, content string, auth []string) gmsl.PDU {
+		depth++
+		ts += int64(rng.Intn(3))
+		var prev []string
+		if last != "" {
+			prev = []string{last}
+		}
+		ev := h.mk(rng, typ, sk, sender, content, prev, auth, depth, ts)
+		h.evs = append(h.evs, ev)
+		h.byID[ev.EventID()] = ev
+		last = ev.EventID()
+		return ev
+	}
+	id := func(e gmsl.PDU) string { return e.EventID() }
+	create := emit(spec.MRoomCreate, strp(""), u[0], fmt.Sprintf(`{"creator":%q,"room_version":"1"}`, u[0]), nil)
+	aj := emit(spec.MRoomMember, strp(u[0]), u[0], `{"membership":"join"}`, []string{id(create)})
+	plContent := func(levels map[string]int) string {
+		var us []string
+		for _, x := range u {
+			if l, ok := levels[x]; ok {
+				us = append(us, fmt.Sprintf("%q:%d", x, l))
+			}
+		}
+		return fmt.Sprintf(`{"users":{%s},"users_default":0,"state_default":50,"events_default":0,"ban":50,"kick":50,"invite":50,"redact":50}`, strings.Join(us, ","))
+	}
+	levels := map[string]int{u[0]: 100, u[1]: 50}
+	pl0 := emit(spec.MRoomPowerLevels, strp(""), u[0], plContent(levels), []string{id(create), id(aj)})
+	jr := emit(spec.MRoomJoinRules, strp(""), u[0], `{"join_rule":"public"}`, []string{id(create), id(pl0), id(aj)})
+	joins := map[string]gmsl.PDU{u[0]: aj}
+	for _, x := range u[1:] {
+		joins[x] = emit(spec.MRoomMember, strp(x), x, `{"membership":"join"}`, []string{id(create), id(pl0), id(jr)})
+	}
+	common := []gmsl.PDU{create, jr}
+	for _, x := range u {
+		common = append(common, joins[x])
+	}
+	var cands []gmsl.PDU
+	bad := -1
+	if broken && n > 2 {
+		bad = 1 + rng.Intn(n-2)
+	}
+	switch kind {
+	case "pl":
+		cands = append(cands, pl0)
+		sender := u[0]
+		for k := 1; k < n; k++ {
+			// the sender raises the next user to 100; from k = 2 on the sender is the user raised last
+			levels[u[k]] = 100
+			s := sender
+			if k == bad {
+				s = u[5] // level 0: not allowed, the walk stops here
+			}
+			cands = append(cands, emit(spec.MRoomPowerLevels, strp(""), s, plContent(levels), []string{id(create), id(cands[k-1]), id(joins[s])}))
+			sender = u[k]
+		}
+	case "member":
+		common = append(common[:0:0], create)
+		for _, x := range u[:5] {
+			common = append(common, joins[x])
+		}
+		common = append(common, pl0)
+		jrInvite := emit(spec.MRoomJoinRules, strp(""), u[0], `{"join_rule":"invite"}`, []string{id(create), id(pl0), id(aj)})
+		common = append(common, jrInvite)
+		target := u[5]
+		steps := []struct{ sender, m string }{{target, "leave"}, {u[0], "invite"}, {target, "join"}, {target, "leave"}, {u[0], "invite"}}
+		prevM := joins[target]
+		for k := 0; k < n; k++ {
+			st := steps[k]
+			s := st.sender
+			if k == bad {
+				s = u[4] // level 0 inviting / acting for somebody else: refused
+			}
+			ev := emit(spec.MRoomMember, strp(target), s, fmt.Sprintf(`{"membership":%q}`, st.m),
+				[]string{id(create), id(pl0), id(jrInvite), id(prevM), id(joins[u[0]])})
+			cands = append(cands, ev)
+			prevM = ev
+		}
+	case "jr":
+		common = append(common[:0:0], create)
+		for _, x := range u {
+			common = append(common, joins[x])
+		}
+		common = append(common, pl0)
+		cands = append(cands, jr)
+		for k := 1; k < n; k++ {
+			s := []string{u[0], u[1], u[0], u[1]}[k-1] // level 100 and level 50: both may
+			if k == bad {
+				s = u[3]
+			}
+			cands = append(cands, emit(spec.MRoomJoinRules, strp(""), s, fmt.Sprintf(`{"join_rule":%q}`, []string{"invite", "public", "knock", "invite"}[k-1]),
+				[]string{id(create), id(pl0), id(joins[s])}))
+		}
+	default: // "3pid"
+		common = append(common, pl0)
+		for k := 0; k < n; k++ {
+			s := []string{u[0], u[1], u[0], u[1], u[0]}[k]
+			if k == bad {
+				s = u[3]
+			}
+			cands = append(cands, emit(spec.MRoomThirdPartyInvite, strp("tok"), s,
+				fmt.Sprintf(`{"display_name":"d%d","key_validity_url":"https://h/v","public_key":"abc"}`, k),
+				[]string{id(create), id(pl0), id(joins[s])}))
+		}
+	}
+	in := &srInput{h: h, ver: "1"}
+	for _, cnd := range cands {
+		in.sets = append(in.sets, append(append([]gmsl.PDU{}, common...), cnd))
+	}
+	var all []gmsl.PDU
+	for _, s := range in.sets {
+		all = append(all, s...)
+	}
+	_, un := srOldSplit(all)
+	for _, e := range un {
+		switch e.Type() {
+		case spec.MRoomCreate, spec.MRoomPowerLevels, spec.MRoomJoinRules, spec.MRoomMember, spec.MRoomThirdPartyInvite:
+			in.auth = append(in.auth, e)
+		}
+	}
+	in.universe = srUniverse(h.evs)
+	in.evjson = srEvJSON(h.evs)
+	return in
+}
+
+// every auth type, 3 / 4 / 5 candidates on one key, intact and with a failing middle candidate,
+// in several presentation orders, both entry points, judged by the r7 oracle
+func srDirectedV1ChainCases(c *Ctx) {
+	for _, kind := range []string{"pl", "member", "jr", "3pid"} {
+		for n := 3; n <= 5; n++ {
+			for _, broken := range []bool{false, true} {
+				in := srDirectedV1Chain(c.Rng, kind, n, broken)
+				cs := srParse(in.ver, in.evjson)
+				c.Count("directed_v1_chain_" + kind)
+				desc := fmt.Sprintf("directed v1 chain: %d candidates on one %s key (broken=%v)", n, kind, broken)
+				var table, otable []byte
+				for p := 0; p < c.Scale(4, 12); p++ {
+					psets, pauth := srRearranged(c.Rng, in)
+					args := [][]byte{[]byte(in.ver), in.universe, srSetsStr(psets), srCSV(pauth), nil, table, in.evjson}
+					table = srFillTable(cs, "C10.resolve_new", args, 5)
+					args[5] = table
+					c.Run("C10.resolve_new", args, "C10.resolve_new", "C10.prop.v1", desc+fmt.Sprintf(" order %d", p))
+					var all []gmsl.PDU
+					for _, s := range psets {
+						all = append(all, s...)
+					}
+					oargs := [][]byte{[]byte(in.ver), in.universe, srCSV(all), srCSV(pauth), nil, otable, in.evjson}
+					otable = srFillTable(cs, "C10.resolve_old", oargs, 5)
+					oargs[5] = otable
+					c.Run("C10.resolve_old", oargs, "C10.resolve_old", "C10.prop.v1_old", desc+fmt.Sprintf(" order %d", p))
+				}
+			}
+		}
+	}
+}
+
+func srNewHist(ver string) *srHist {
+	verImpl := gmsl.MustGetRoomVersion(gmsl.RoomVersion(ver))
+	return &srHist{ver: gmsl.RoomVersion(ver), v1fmt: verImpl.EventFormat() == gmsl.EventFormatV1,
+		v12: verImpl.DomainlessRoomIDs(), byID: map[string]gmsl.PDU{}, idx: map[string]int{}, roomID: "!r:" + srOrigin}
+}
+
+// a linear emitter over a history (prev = the event emitted last unless moved)
+type srEmitter struct {
+	h     *srHist
+	rng   *rand.Rand
+	ts    int64
+	depth int64
+	last  string
+}
+
+func (m *srEmitter) emit(typ string, sk *string, sender, content string, auth []string) gmsl.PDU {
+	m.depth++
+	m.ts += int64(m.rng.Intn(3))
+	var prev []string
+	if m.last != "" {
+		prev = []string{m.last}
+	}
+	ev := m.h.mk(m.rng, typ, sk, sender, content, prev, auth, m.depth, m.ts)
+	m.h.evs = append(m.h.evs, ev)
+	m.h.byID[ev.EventID()] = ev
+	m.last = ev.EventID()
+	return ev
+}
+
+func srFinishInput(h *srHist, ver string, sets [][]gmsl.PDU, v1auth bool) *srInput {
+	in := &srInput{h: h, ver: ver, sets: sets}
+	var all []gmsl.PDU
+	for _, s := range sets {
+		all = append(all, s...)
+	}
+	if v1auth {
+		_, un := srOldSplit(all)
+		for _, e := range un {
+			switch e.Type() {
+			case spec.MRoomCreate, spec.MRoomPowerLevels, spec.MRoomJoinRules, spec.MRoomMember, spec.MRoomThirdPartyInvite:
+				in.auth = append(in.auth, e)
+			}
+		}
+	} else {
+		in.auth = h.authChain(all)
+	}
+	in.universe = srUniverse(h.evs)
+	in.evjson = srEvJSON(h.evs)
+	return in
+}
+
+// srDirectedV1Admin: room version 1, two or three conflicted member keys whose newest candidate
+// is sent by SOMEBODY ELSE - the admin, whose own membership is unconflicted: she bans / kicks /
+// invites several users on one branch. Every block needs the admin's membership to authorise its
+// newest event, so it has to survive the resolution of the other blocks (removeAuthEvent must
+// remove the winner's state key, nothing else).
+func srDirectedV1Admin(rng *rand.Rand) *srInput {
+	h := srNewHist("1")
+	nv := 2 + rng.Intn(2)
+	for i := 0; i < 1+nv; i++ {
+		h.users = append(h.users, fmt.Sprintf("@u%d:%s", i, srOrigin))
+	}
+	m := &srEmitter{h: h, rng: rng, ts: int64(1000 + rng.Intn(500))}
+	id := func(e gmsl.PDU) string { return e.EventID() }
+	admin := h.users[0]
+	create := m.emit(spec.MRoomCreate, strp(""), admin, fmt.Sprintf(`{"creator":%q,"room_version":"1"}`, admin), nil)
+	aj := m.emit(spec.MRoomMember, strp(admin), admin, `{"membership":"join"}`, []string{id(create)})
+	pl := m.emit(spec.MRoomPowerLevels, strp(""), admin,
+		fmt.Sprintf(`{"users":{%q:100},"users_default":0,"state_default":50,"events_default":0,"ban":50,"kick":50,"invite":0,"redact":50}`, admin),
+		[]string{id(create), id(aj)})
+	jr := m.emit(spec.MRoomJoinRules, strp(""), admin, `{"join_rule":"public"}`, []string{id(create), id(pl), id(aj)})
+	set1 := []gmsl.PDU{create, aj, pl, jr}
+	set2 := []gmsl.PDU{create, aj, pl, jr}
+	var joins []gmsl.PDU
+	for _, v := range h.users[1:] {
+		joins = append(joins, m.emit(spec.MRoomMember, strp(v), v, `{"membership":"join"}`, []string{id(create), id(pl), id(jr)}))
+	}
+	for i, v := range h.users[1:] {
+		act := m.emit(spec.MRoomMember, strp(v), admin, fmt.Sprintf(`{"membership":%q}`, []string{"ban", "leave", "ban"}[rng.Intn(3)]),
+			[]string{id(create), id(pl), id(aj), id(joins[i])})
+		set1 = append(set1, joins[i])
+		set2 = append(set2, act)
+	}
+	if rng.Intn(2) == 0 {
+		set1, set2 = set2, set1
+	}
+	return srFinishInput(h, "1", [][]gmsl.PDU{set1, set2}, true)
+}
+
+// srDirectedV2Overwrite: a v2 / v2.1 room in which a key is UNCONFLICTED (every state set holds
+// the same event K2 for it) while the auth difference holds another event K1X of the same key
+// that passes its auth check (a superseded concurrent event that only one fork's topic names as
+// auth event). The iterative auth checks put K1X into the partial state; the final
+// re-application of the unconflicted state has to put K2 back (v2 AND v2.1).
+func srDirectedV2Overwrite(rng *rand.Rand, ver string, key string) *srInput {
+	h := srNewHist(ver)
+	h.users = []string{"@u0:" + srOrigin, "@u1:" + srOrigin}
+	m := &srEmitter{h: h, rng: rng, ts: int64(1000 + rng.Intn(500))}
+	id := func(e gmsl.PDU) string { return e.EventID() }
+	au := func(ids ...string) []string { // v12: the create event is never listed
+		if !h.v12 {
+			return ids
+		}
+		return ids[1:]
+	}
+	a, b := h.users[0], h.users[1]
+	cc := fmt.Sprintf(`{"room_version":%q`, ver)
+	if !h.v12 {
+		cc += fmt.Sprintf(`,"creator":%q`, a)
+	}
+	create := m.emit(spec.MRoomCreate, strp(""), a, cc+"}", nil)
+	if h.v12 {
+		h.roomID = "!" + create.EventID()[1:]
+	}
+	aj := m.emit(spec.MRoomMember, strp(a), a, `{"membership":"join"}`, au(id(create)))
+	plc := func(extra int) string {
+		return fmt.Sprintf(`{"users":{%q:100,%q:%d},"users_default":0,"state_default":50,"events_default":0,"ban":50,"kick":50,"invite":0,"redact":50}`, a, b, extra)
+	}
+	pl1 := m.emit(spec.MRoomPowerLevels, strp(""), a, plc(0), au(id(create), id(aj)))
+	jr1 := m.emit(spec.MRoomJoinRules, strp(""), a, `{"join_rule":"public"}`, au(id(create), id(pl1), id(aj)))
+	bj := m.emit(spec.MRoomMember, strp(b), b, `{"membership":"join"}`, au(id(create), id(pl1), id(jr1)))
+	fork := m.last
+	var k1x, k2 gmsl.PDU
+	if key == "pl" {
+		k1x = m.emit(spec.MRoomPowerLevels, strp(""), a, plc(25), au(id(create), id(pl1), id(aj)))
+		m.last = fork
+		k2 = m.emit(spec.MRoomPowerLevels, strp(""), a, plc(50), au(id(create), id(pl1), id(aj)))
+	} else {
+		k1x = m.emit(spec.MRoomJoinRules, strp(""), a, `{"join_rule":"invite"}`, au(id(create), id(pl1), id(aj)))
+		m.last = fork
+		k2 = m.emit(spec.MRoomJoinRules, strp(""), a, `{"join_rule":"knock"}`, au(id(create), id(pl1), id(aj)))
+	}
+	plNow, plFork := pl1, pl1
+	if key == "pl" {
+		plNow, plFork = k2, k1x
+	}
+	// fork 1: an event that names K1X among its auth events; fork 2: one that does not
+	var t1 gmsl.PDU
+	if key == "pl" {
+		t1 = m.emit("m.room.topic", strp(""), a, `{"topic":"one"}`, au(id(create), id(plFork), id(aj)))
+	} else {
+		// a join names the join rules: b re-joins citing the superseded join rules
+		t1 = m.emit(spec.MRoomMember, strp(b), b, `{"displayname":"b1","membership":"join"}`, au(id(create), id(pl1), id(k1x), id(bj)))
+	}
+	var t2 gmsl.PDU
+	if key == "pl" {
+		t2 = m.emit("m.room.topic", strp(""), a, `{"topic":"two"}`, au(id(create), id(plNow), id(aj)))
+	} else {
+		t2 = m.emit(spec.MRoomMember, strp(b), b, `{"displayname":"b2","membership":"join"}`, au(id(create), id(pl1), id(k2), id(bj)))
+	}
+	common := []gmsl.PDU{create, aj}
+	if key == "pl" {
+		common = append(common, k2, jr1, bj)
+	} else {
+		common = append(common, pl1, k2)
+	}
+	set1 := append(append([]gmsl.PDU{}, common...), t1)
+	set2 := append(append([]gmsl.PDU{}, common...), t2)
+	return srFinishInput(h, ver, [][]gmsl.PDU{set1, set2}, false)
+}
+
+// the directed v2 family through both entry points in a few orders
+func srDirectedV2Cases(c *Ctx) {
+	for _, ver := range []string{"2", "6", "10", "11", "12"} {
+		for _, key := range []string{"pl", "jr"} {
+			in := srDirectedV2Overwrite(c.Rng, ver, key)
+			cs := srParse(in.ver, in.evjson)
+			c.Count("directed_v2_overwrite")
+			desc := fmt.Sprintf("directed v%s history: unconflicted %s key with another event of that key in the auth difference", ver, key)
+			var table, otable []byte
+			for p := 0; p < 3; p++ {
+				psets, pauth := srRearranged(c.Rng, in)
+				args := [][]byte{[]byte(in.ver), in.universe, srSetsStr(psets), srCSV(pauth), nil, table, in.evjson}
+				table = srFillTable(cs, "C10.resolve_new", args, 5)
+				args[5] = table
+				c.Run("C10.resolve_new", args, "C10.resolve_new", "C10.prop.unconflicted_kept", desc+fmt.Sprintf(" order %d", p))
+				var all []gmsl.PDU
+				for _, s := range psets {
+					all = append(all, s...)
+				}
+				oargs := [][]byte{[]byte(in.ver), in.universe, srCSV(all), srCSV(pauth), nil, otable, in.evjson}
+				otable = srFillTable(cs, "C10.resolve_old", oargs, 5)
+				oargs[5] = otable
+				c.Run("C10.resolve_old", oargs, "C10.resolve_old", "", desc+fmt.Sprintf(" order %d", p))
+			}
+		}
+	}
+}
+
 // srRearranged: the state sets in another order, their events in another order, the auth events
 // in another order
 func srRearranged(rng *rand.Rand, in *srInput) ([][]gmsl.PDU, []gmsl.PDU) {
@@ -1088,6 +1451,9 @@ func srRearranged(rng *rand.Rand, in *srInput) ([][]gmsl.PDU, []gmsl.PDU) {
 func srDirectedV1Cases(c *Ctx) {
 	for j := 0; j < c.Scale(10, 80); j++ {
 		in := srDirectedV1(c.Rng)
+		if j%3 == 2 {
+			in = srDirectedV1Admin(c.Rng)
+		}
 		cs := srParse(in.ver, in.evjson)
 		c.Count("directed_v1_histories")
 		desc := fmt.Sprintf("directed v1 history %d: %d events, interdependent conflicted member keys", j, len(in.h.evs))
@@ -1117,6 +1483,8 @@ func (in *srInput) resolveNewArgs() [][]byte {
 
 func propC10(c *Ctx) {
 	srSilence()
+	srDirectedV1ChainCases(c)
+	srDirectedV2Cases(c)
 	srDirectedV1Cases(c)
 	nh := c.Scale(160, 2500)
 	for i := 0; i < nh; i++ {
